@@ -1,12 +1,12 @@
 SPECIFICATION Spec
 CONSTANTS
-  Cmds <- C3
-  Kind <- Kind3
-  Name <- Name3
-  Bind <- Bind3
+  Cmds <- C6
+  Kind <- Kind6
+  Name <- Name6
+  Bind <- Bind6
   MayFail = TRUE
-  AtomicInstall = FALSE
-  CheckOnRollout = TRUE
+  AtomicInstall = TRUE
+  CheckOnRollout = FALSE
   DisposeOnConflict = TRUE
 INVARIANTS
   O_Ownership
